@@ -413,6 +413,18 @@ structure OrigNHG where
   NextHop : List OrigNHGMember
   deriving DecidableEq, Repr, Inhabited
 
+/-- a `RIBHolder` as the registry of network instances looks at it: its name, the post-change
+hook it was given, the options it was created with (1 = the RIB's check function, 2 = forward
+references disabled) -/
+structure HolderG where
+  name : String
+  postChangeHook : Option Unit := none
+  opts : List Nat := []
+  deriving DecidableEq, Repr, Inhabited
+
+/-- `sort.Strings` -/
+def sortStrings (l : List String) : List String := l.mergeSort (fun a b => decide (a ≤ b))
+
 /-- an installed next-hop-group as `Flush` looks at it (`*aft.Afts_NextHopGroup`): its backup
 group, a `*uint64` -/
 structure FlNHG where
